@@ -387,6 +387,8 @@ pub struct C01Space {
     pub template: usize,
     pub max_depth: u8,
     pub contexts: Vec<usize>,
+    /// Only replacements (no insertions/deletions): a smaller alphabet for one more level of depth.
+    pub replacements_only: bool,
 }
 
 thread_local! {
@@ -456,6 +458,7 @@ impl Space for C01Space {
         }
         difflab::edits(&s.files)
             .into_iter()
+            .filter(|e| !self.replacements_only || matches!(e, Edit::Rep { .. }))
             .map(|e| {
                 let files = difflab::apply(&s.files, &e, s.depth as usize + 1);
                 let mut history = s.history.clone();
@@ -640,7 +643,21 @@ pub fn run(cfg: &Cfg, sink: &Arc<Sink>) -> Report {
         report.phase(engine::explore(
             name,
             &format!("all edit histories of length ≤{depth} × -U{contexts:?} × {{diff, diff+glob}}"),
-            C01Space { template: ti, max_depth: depth, contexts: contexts.clone() },
+            C01Space { template: ti, max_depth: depth, contexts: contexts.clone(), replacements_only: false },
+            sink,
+            cfg.threads,
+            false,
+        ));
+    }
+    // One level deeper over replacements only (three or more changed lines in one file are what
+    // it takes to steer the binary search over line changes the wrong way).
+    for ti in [0usize, 2, 3] {
+        let name = templates()[ti].name;
+        let depth = depth_all + 1;
+        report.phase(engine::explore(
+            &format!("{name}, replacements only"),
+            &format!("all histories of ≤{depth} line replacements and tag-line edits × -U[0, 3] × {{diff, diff+glob}}"),
+            C01Space { template: ti, max_depth: depth, contexts: vec![0, 3], replacements_only: true },
             sink,
             cfg.threads,
             false,
